@@ -171,6 +171,7 @@ func (k *checker) flusherCase(c *alignCase) {
 	k.r.Event("watchdog_expiry_reproduced", 1)
 	switch again := k.runFlusher(c); again {
 	case stall:
+		k.dead["flusher"] = true
 		k.r.Violation(k.sigPrefix(c)+"flush-never-arrives:"+stall+":"+c.Pattern, fmt.Sprintf("aligned flusher %s: %s in two runs of the same deterministic mock-clock script (watchdog %v each)", c.describe(), stall, watchdog), map[string]interface{}{"case": c})
 	case "":
 		k.r.Event("watchdog_expiry_not_reproduced", 1)
